@@ -681,8 +681,8 @@ def run(chk):
     if chk.extra.get('group_extraction_failed') and not chk.violations:
         chk.report_unproved('extraction', chk.extra['group_extraction_failed'])
     mfail = {k: v for k, v in (((chk.extract_report or {}).get('parts', {}).get('methods_group') or {}).get('failed') or {}).items()
-             if k.split('::')[0] in ('SBEPP_SIZE_CHECK', 'model-I', 'flat_group_base', 'nested_group_base', 'forward_iterator',
-                                     'random_access_iterator')}
+             if k.startswith('I:') or k in ('SBEPP_SIZE_CHECK', 'model-I', 'sbepp.hpp', 'flat_group_base', 'nested_group_base',
+                                            'forward_iterator', 'random_access_iterator')}
     if mfail and not chk.violations:
         chk.report_unproved('extraction', {'extractor': 'methods_group', 'failed': mfail})
     if chk.failed_obligations and not chk.violations:
